@@ -185,3 +185,25 @@ def range_args(loop: ast.For):
     if isinstance(it, ast.Call) and isinstance(it.func, ast.Name) and it.func.id == "range":
         return it.args
     return None
+
+
+def locate_loop(fi: FuncInfo, which: int = 0, kind=(ast.For, ast.While)):
+    """Finds the `which`-th loop that is not nested in another loop (it may sit inside
+    if-branches).  Returns (pre, loop, post, conditions): `pre` are the statements executed
+    before the loop along the nesting path (outer blocks first), `post` the statements of the
+    loop's own block after it, `conditions` the (test, branch_taken) pairs of the enclosing ifs."""
+    found = []
+
+    def walk(stmts, pre, conds):
+        for k, st in enumerate(stmts):
+            if isinstance(st, kind):
+                found.append((pre + stmts[:k], st, stmts[k + 1:], list(conds)))
+            elif isinstance(st, (ast.For, ast.While)):
+                pass
+            elif isinstance(st, ast.If):
+                walk(st.body, pre + stmts[:k], conds + [(st.test, True)])
+                walk(st.orelse, pre + stmts[:k], conds + [(st.test, False)])
+    walk(fi.node.body, [], [])
+    if len(found) <= which:
+        raise AnalysisError(f"{fi.qualname}: expected a loop #{which} outside other loops - shape not recognised")
+    return found[which]
